@@ -242,4 +242,36 @@ def queryRequest {σ : Type} (k : LoopShape) (ls : LimitShape) (maxLimit : Nat) 
   else if k.waitCond && k.freshTimeout && k.breaksOnTimeout then queryLoop c waitTimeout cmp fuel limit s []
   else queryLoop c 0 cmp fuel limit s []
 
+/-! ## the client's stream loop (`api.Select`, stream mode) -/
+
+/-- the position a request asks for: the end of the stream as it is when the request reaches the server (`Pos: "tail"`, resolved
+on a fresh cursor), or a concrete position (what a `NextQueryRequest` carries) -/
+inductive ReqPos where
+  | tail
+  | at (n : Nat)
+deriving DecidableEq, Repr
+
+/-- one round of the loop: `gap` events become readable between the previous answer and this request reaching the server,
+`during` events during this request's wait. (A request that finds something readable answers at once; the harness therefore
+drives rounds with `gap = 0 ∨ during = 0` — in the model the answer simply carries everything up to the end of the round.) -/
+structure Round where
+  gap : Nat
+  during : Nat
+deriving DecidableEq, Repr
+
+/-- `api.Select(…, streamMode = true, …)` over a server that answers every request with all events from its position to the
+end (global indices) and a `NextQueryRequest` at that end. `takesNext` is the regenerated fact about the loop: every round
+continues with `&res.NextQueryRequest`; if not, a round that came back empty re-sends the request it had. -/
+def selectStream (takesNext : Bool) : Nat → ReqPos → List Round → List Nat
+  | _, _, [] => []
+  | stored, pos, r :: rs =>
+    let stored1 := stored + r.gap
+    let p := match pos with
+      | .tail => stored1
+      | .at n => n
+    let stored2 := stored1 + r.during
+    let evs := List.range' p (stored2 - p)
+    let pos' := if evs.isEmpty && !takesNext then pos else ReqPos.at stored2
+    evs ++ selectStream takesNext stored2 pos' rs
+
 end Logrange.WaitLts
